@@ -10,21 +10,22 @@ open TornadoModel.C06 (Str normalize dget dset ddel isToken stripWs lowerC dkeys
 /-- the abstract request parameters are header values `RequestHandler` itself would accept -/
 def reqOK (rq : Req) : Bool := validValue rq.serverV && validValue rq.dateV && validValue rq.etagV
 
-/-- the handler does not set `Transfer-Encoding`, sets `Content-Length` only to one decimal number, uses
-    token header names and three-digit status codes -/
+/-- the handler does not set `Transfer-Encoding`, uses token header names and three-digit status codes.
+    Nothing is demanded of header *values* (in particular a handler-set `Content-Length` may be any text, set or
+    added any number of times): since the `fix:` commit 28dd4cc `flush()` rejects an uninterpretable one. -/
 def opOK : Op → Bool
   | .setStatus c => decide (100 ≤ c) && decide (c ≤ 999)
-  | .setHeader n v =>
-    isToken (normalize n) && (normalize n != nTE) && (normalize n != nCL || (!v.isEmpty && v.all isDigit))
-  | .addHeader n _ => isToken (normalize n) && (normalize n != nTE) && (normalize n != nCL)
+  | .setHeader n _ => isToken (normalize n) && (normalize n != nTE)
+  | .addHeader n _ => isToken (normalize n) && (normalize n != nTE)
   | _ => true
 
-/-! ### header map: no Transfer-Encoding, a single decimal Content-Length -/
+/-! ### header map: token keys, valid values, no Transfer-Encoding (`HOK`, holds throughout a run);
+    a single decimal Content-Length (`CLOK`, established by `flush()`'s check `clValid`) -/
 
 def CLOK (h : HMap) : Prop :=
   ∀ vs, dget nCL h = some vs → ∃ v, vs = [v] ∧ v ≠ [] ∧ v.all isDigit = true
 
-def HOK (h : HMap) : Prop := KeysOK h ∧ dget nTE h = none ∧ CLOK h
+def HOK (h : HMap) : Prop := KeysOK h ∧ dget nTE h = none
 
 theorem norm_nCL : normalize nCL = nCL := by decide
 theorem norm_nTE : normalize nTE = nTE := by decide
@@ -32,26 +33,14 @@ theorem norm_nConn : normalize nConn = nConn := by decide
 theorem norm_nEtag : normalize nEtag = nEtag := by decide
 
 theorem HOK_hset (h : HMap) (n v : Str) (hok : HOK h) (ht : isToken (normalize n) = true)
-    (hv : validValue v = true) (hte : normalize n ≠ nTE)
-    (hcl : normalize n = nCL → v ≠ [] ∧ v.all isDigit = true) : HOK (hset h n v) := by
-  refine ⟨KeysOK_hset h hok.1 n v ht hv, ?_, ?_⟩
-  · unfold hset; rw [dget_dset_ne _ _ _ _ hte]; exact hok.2.1
-  · intro vs hvs
-    unfold hset at hvs
-    by_cases hc : normalize n = nCL
-    · rw [hc, dget_dset_same] at hvs
-      cases hvs
-      exact ⟨v, rfl, hcl hc⟩
-    · rw [dget_dset_ne _ _ _ _ hc] at hvs
-      exact hok.2.2 vs hvs
+    (hv : validValue v = true) (hte : normalize n ≠ nTE) : HOK (hset h n v) := by
+  refine ⟨KeysOK_hset h hok.1 n v ht hv, ?_⟩
+  unfold hset; rw [dget_dset_ne _ _ _ _ hte]; exact hok.2
 
 theorem HOK_hadd (h : HMap) (n v : Str) (hok : HOK h) (ht : isToken (normalize n) = true)
-    (hv : validValue v = true) (hte : normalize n ≠ nTE) (hcl : normalize n ≠ nCL) : HOK (hadd h n v) := by
-  refine ⟨KeysOK_hadd h hok.1 n v ht hv, ?_, ?_⟩
-  · unfold hadd; split <;> (rw [dget_dset_ne _ _ _ _ hte]; exact hok.2.1)
-  · intro vs hvs
-    unfold hadd at hvs
-    split at hvs <;> (rw [dget_dset_ne _ _ _ _ hcl] at hvs; exact hok.2.2 vs hvs)
+    (hv : validValue v = true) (hte : normalize n ≠ nTE) : HOK (hadd h n v) := by
+  refine ⟨KeysOK_hadd h hok.1 n v ht hv, ?_⟩
+  unfold hadd; split <;> (rw [dget_dset_ne _ _ _ _ hte]; exact hok.2)
 
 theorem dget_ddel (k x : Str) (h : HMap) : dget x (ddel k h) = if k = x then none else dget x h := by
   by_cases hk : k = x
@@ -59,15 +48,10 @@ theorem dget_ddel (k x : Str) (h : HMap) : dget x (ddel k h) = if k = x then non
   · simp [hk, C06.dget_ddel_other k x h (fun e => hk e.symm)]
 
 theorem HOK_hdel (h : HMap) (n : Str) (hok : HOK h) : HOK (hdel h n) := by
-  refine ⟨KeysOK_hdel h hok.1 n, ?_, ?_⟩
-  · unfold hdel; rw [dget_ddel]; split
-    · rfl
-    · exact hok.2.1
-  · intro vs hvs
-    unfold hdel at hvs; rw [dget_ddel] at hvs
-    split at hvs
-    · cases hvs
-    · exact hok.2.2 vs hvs
+  refine ⟨KeysOK_hdel h hok.1 n, ?_⟩
+  unfold hdel; rw [dget_ddel]; split
+  · rfl
+  · exact hok.2
 
 theorem HOK_clearRepr (h : HMap) (hok : HOK h) : HOK (clearRepr h) :=
   HOK_hdel _ _ (HOK_hdel _ _ (HOK_hdel _ _ hok))
@@ -79,7 +63,7 @@ theorem dget_default (rq : Req) (k : Str) (h1 : nServer ≠ k) (h2 : nCT ≠ k) 
 theorem HOK_default (rq : Req) (hrq : reqOK rq = true) : HOK (defaultHdrs rq) := by
   unfold reqOK at hrq
   simp only [Bool.and_eq_true] at hrq
-  refine ⟨⟨?_, ?_⟩, dget_default rq nTE (by decide) (by decide) (by decide), ?_⟩
+  refine ⟨⟨?_, ?_⟩, dget_default rq nTE (by decide) (by decide) (by decide)⟩
   · show ([nServer, nCT, nDate] : List Str).Nodup
     decide
   · intro e he
@@ -89,8 +73,6 @@ theorem HOK_default (rq : Req) (hrq : reqOK rq = true) : HOK (defaultHdrs rq) :=
     · exact ⟨(by decide : normalize nCT = nCT), (by decide : isToken nCT = true),
         fun v hv => by simp at hv; subst hv; decide⟩
     · exact ⟨(by decide : normalize nDate = nDate), (by decide : isToken nDate = true), by simpa using hrq.1.2⟩
-  · intro vs hvs
-    rw [dget_default rq nCL (by decide) (by decide) (by decide)] at hvs; cases hvs
 
 theorem hhas_nCL (h : HMap) : hhas h nCL = (dget nCL h).isSome := by unfold hhas; rw [norm_nCL]
 
@@ -99,11 +81,46 @@ theorem parseDec_digits (v : Str) (hne : v ≠ []) (hd : v.all isDigit = true) :
   have : v.isEmpty = false := by cases v <;> simp_all
   simp [this, hd]
 
+theorem parseDec_some (v : Str) (n : Nat) (h : parseDec v = some n) : v ≠ [] ∧ v.all isDigit = true := by
+  unfold parseDec at h
+  by_cases hc : (v.isEmpty || !v.all isDigit) = true
+  · rw [if_pos hc] at h; cases h
+  · simp only [Bool.or_eq_true, Bool.not_eq_true', not_or, Bool.not_eq_true, Bool.not_eq_false] at hc
+    exact ⟨by intro e; rw [e] at hc; simp at hc, hc.2⟩
+
+/-- `headers["Content-Length"]` (values joined by ",") passes `parse_int` only when there is exactly one value
+    and it is a non-empty run of digits -/
+theorem joined_digits (vs : List Str) (n : Nat) (h : parseDec (C06.joinWith [44] vs) = some n) :
+    ∃ v, vs = [v] ∧ v ≠ [] ∧ v.all isDigit = true := by
+  match vs, h with
+  | [], h => simp [C06.joinWith, parseDec] at h
+  | [v], h => exact ⟨v, rfl, parseDec_some v n h⟩
+  | v :: w :: ws, h =>
+    exfalso
+    have := (parseDec_some _ n h).2
+    simp only [C06.joinWith, List.all_append, List.all_cons, Bool.and_eq_true] at this
+    exact absurd this.1.2.1 (by decide)
+
+/-- `flush()`'s check establishes the Content-Length part of the header invariant -/
+theorem CLOK_of_clValid (h : HMap) (hv : clValid h = true) : CLOK h := by
+  intro vs hvs
+  unfold clValid at hv
+  have hh : hhas h nCL = true := by rw [hhas_nCL, hvs]; rfl
+  rw [hh] at hv
+  simp only [Bool.not_true, Bool.false_or, Option.isSome_iff_exists] at hv
+  obtain ⟨n, hn⟩ := hv
+  unfold hget at hn
+  rw [norm_nCL, hvs] at hn
+  exact joined_digits vs n hn
+
+theorem clValid_absent (h : HMap) (hg : dget nCL h = none) : clValid h = true := by
+  unfold clValid; rw [hhas_nCL, hg]; rfl
+
 /-! ### `finalHeaders` -/
 
 theorem HOK_conn (h : HMap) (v : Str) (hv : validValue v = true) (hok : HOK h) :
     HOK (hset h nConn v) ∧ dget nCL (hset h nConn v) = dget nCL h := by
-  refine ⟨HOK_hset h nConn v hok (by decide) hv (by decide) (fun e => absurd e (by decide)), ?_⟩
+  refine ⟨HOK_hset h nConn v hok (by decide) hv (by decide), ?_⟩
   unfold hset
   exact dget_dset_ne _ _ _ _ (by decide)
 
@@ -127,7 +144,7 @@ theorem finalHeaders_spec (rq : Req) (disc chunking : Bool) (code : Nat) (h : HM
     then hset h1 nConn vKeepAlive else h1) = h2 at a2 b2 ⊢
   cases chunking
   · simp only [Bool.false_eq_true, if_false]
-    exact ⟨a2.1, b2.trans b1, a2.2.1⟩
+    exact ⟨a2.1, b2.trans b1, a2.2⟩
   · simp only [if_true]
     refine ⟨KeysOK_hset h2 a2.1 nTE vChunked (by decide) (by decide), ?_, ?_⟩
     · unfold hset; rw [dget_dset_ne _ _ _ _ (by decide)]; exact b2.trans b1
